@@ -80,25 +80,11 @@ def run(tier, seed, replay=None):
                     worst_e = (t, o, v)
             if worst_e:
                 rep.violation(f"[{cfg}] a well-typed planning program is rejected with an error: {worst_e[2]}", e2e.replay_of(worst_e[0], cfg, worst_e[1]), tags={"error-planning:" + cfg})
-            # the corpus: hand-checked programs from bug hunts with the verdict they must get (a solution exists / none does);
-            # a wrong verdict is a violation, suppressed and listed when the corpus entry names a recorded finding
-            import json as _json
-            import os as _os
-            cdir = _os.path.join(vlib.VERIF, "corpus")
-            if _os.path.exists(_os.path.join(cdir, "index.json")):
-                index = _json.load(open(_os.path.join(cdir, "index.json")))
-                names = sorted(index)
-                ctexts = [open(_os.path.join(cdir, nm + ".rddl"), encoding="utf-8").read() for nm in names]
-                for nm, t, o in zip(names, ctexts, e2e.solve_all(cfg, ctexts, limit=20)):
-                    v = e2e.verdict(o)
-                    ok = v == index[nm]["expect"]
-                    stats[(cfg, "corpus", "ok" if ok else "WRONG")] = stats.get((cfg, "corpus", "ok" if ok else "WRONG"), 0) + 1
-                    if not ok:
-                        tags = {"corpus:" + nm + ":" + cfg}
-                        if index[nm].get("finding"):
-                            tags.add(index[nm]["finding"])
-                        rep.violation(f"[{cfg}] corpus program {nm}.rddl gets the verdict {v[:80]}, expected {index[nm]['expect']} (a hand-checked solution exists)" if index[nm]["expect"] == "T"
-                                      else f"[{cfg}] corpus program {nm}.rddl gets the verdict {v[:80]}, expected {index[nm]['expect']}", e2e.replay_of(t, cfg, o), tags=tags)
+            if cfg == e2e.cfgs(tier)[0]:
+                from . import corpus
+                cst = corpus.run(rep, PROP, tier)
+                for k_, n_ in cst.items():
+                    stats[("both", "corpus", k_)] = n_
             texts = [p[1] for p in planted] + [p[1] for p in free] + [v[2] for v in var_progs]
             outs = e2e.solve_all(cfg, texts)
             vs = [e2e.verdict(o) for o in outs]
